@@ -10,7 +10,7 @@ from fv import design
 
 RICH_NUM = ["x", "z", "binary(f, 'a')", "B(g)", "center(x)", "scale(z)", "bs(x, df=4)", "poly(z, 2)", "np.log(z)", "I(x ** 2)", "bs(z, df=3, degree=2)", "standardize(x)", "poly(x, 2, raw=True)", "scale(center(z))",
             "bs(x, knots=KN)", "bs(z, knots=KZ, degree=2, intercept=True)", "poly(xc, 2)", "center(xc)", "poly(xc, 3)",
-            "ustd(x)", "ustd(center(z), shift=1)"]
+            "ustd(x)", "ustd(center(z), shift=1)", "fkw(x, k=z)", "scale(fkw(x, k=z))", "fkw(z, k=np.abs(x))"]
 RICH_CAT = ["f", "g", "h", "o", "C(k)", "C(f, Sum)", "T(h, 'B-y')", "S(g)", "C(k, levels=KL)", "I(f)", "ou", "C(ou)", "S(ou)", "T(ou)"]
 
 
@@ -52,6 +52,11 @@ def gen_text_formula(rng, groups=True, rich=True, max_terms=4):
     return "y ~ " + " + ".join(parts)
 
 
+def _fkw(a, k=0):
+    """A user function that takes a data column by keyword."""
+    return np.asarray(a, dtype=float) - 2.0 * np.asarray(k, dtype=float)
+
+
 class UserStd:
     """A user-defined stateful transform (the attribute is what register_stateful_transform sets):
     parameters are fitted on the first call and remembered."""
@@ -76,7 +81,7 @@ def namespace(w, rng=None):
     kl = sorted(set(w.cols["k"]["v"]))
     if rng is not None and rng.random() < 0.5:
         kl = kl[::-1]
-    return {"ustd": UserStd, "KL": kl, "KN": [float(np.percentile(xs, 35)), float(np.percentile(xs, 70))], "KZ": [float(np.percentile(zs, 50))]}
+    return {"fkw": _fkw, "ustd": UserStd, "KL": kl, "KN": [float(np.percentile(xs, 35)), float(np.percentile(xs, 70))], "KZ": [float(np.percentile(zs, 50))]}
 
 
 def intern(mats, tol=1e-9):
